@@ -314,20 +314,79 @@ def cookies(chk, prog, cfg):
             d = describe(prog, bb, t["args"][idx])
             so = [c for c in desc_calls(d) if c[1].endswith("::split_once")]
             first_eq = len(so) >= 1 and so[0][2][1] == ("lit", 61)
-            odd = sorted(set(c[1] for c in desc_calls(d) if not core.re.search(r"(::|>::)(trim|trim_start|trim_end|split_once|branch|deref|as_ref|as_str|borrow|to_string|to_owned|clone|into|from)$", c[1])))
+            # what is done to the half after the split (the pair itself may come from a closure parameter or from the loop over `split(';')`)
+            def above_split(y, acc):
+                if isinstance(y, tuple):
+                    if y and y[0] == "call":
+                        acc.append(y[1])
+                        if y[1].endswith("::split_once"):
+                            for a_ in y[2][1:]:
+                                above_split(a_, acc)
+                            return acc
+                    for z in y:
+                        above_split(z, acc)
+                elif isinstance(y, list):
+                    for z in y:
+                        above_split(z, acc)
+                return acc
+            odd = sorted(set(c for c in above_split(d, []) if not core.re.search(r"(::|>::)(trim|trim_start|trim_end|split_once|branch|deref|as_ref|as_str|borrow|to_string|to_owned|clone|into|from)$", c)))
             half = desc_contains(d, lambda y: y[0] == "field" and y[2] == idx and desc_contains(y[1], lambda z: z[0] == "call" and z[1].endswith("::split_once")))
             chk.ob("R7.cookies", gc.path, f"cookie {what} = trimmed {'left' if idx == 0 else 'right'} half of the pair split at its first '='", first_eq and half and not odd,
                    f"{what} = {core.short(str(d))[:140]}; other transformations: {[core.short(x) for x in odd]}", where=bb.where(blk), cfg=cfg)
     keep = [t["callee"].split("::")[-1] for bb in fam for blk, t in bb.calls_to(r"Iterator::(filter_map|filter|take|skip|take_while|skip_while|step_by|rev)$")]
-    chk.ob("R7.cookies", gc.path, "pieces are dropped only when they contain no '='", keep == ["filter_map"], f"adaptors: {keep}", cfg=cfg)
+    # the only conditions under which a piece becomes a cookie: the header exists, the piece exists, and it contains '=' (split_once is Some)
+    extra = []
+    for bb, blk, t in news:
+        for s_, lab, gd, info in core.guards_dominating(prog, bb, blk):
+            ok_g = isinstance(gd, tuple) and gd[0] == "call" and (
+                (lab in ("Some", "Continue") and core.re.search(r"::split_once$|Headers::get$|Iterator>?::next$|ops::Try>::branch$", gd[1])) or
+                (lab in ("true", "false") and core.re.search(r"::(is_some|is_none)$", gd[1]) and desc_contains(gd, lambda y: y[0] == "call" and core.re.search(r"::split_once$|Headers::get$", y[1]) is not None)))
+            if not ok_g:
+                extra.append((lab, core.short(str(gd))[:60]))
+    chk.ob("R7.cookies", gc.path, "pieces are dropped only when they contain no '='", keep in (["filter_map"], []) and not extra, f"adaptors: {keep}; other conditions: {extra}", cfg=cfg)
     # get_cookie
     finds = g1.calls_to(r"Iterator>::find$|Iterator::find$")
     from_list = bool(finds) and desc_contains(describe(prog, g1, finds[0][1]["args"][0]), lambda y: y[0] == "call" and y[1].endswith("Request::get_cookies"))
     rev = g1.calls_to(r"Iterator::rev$|Iterator::last$|Iterator::max_by|Iterator::min_by")
-    chk.ob("R7.cookie_lookup", g1.path, "get_cookie searches the list produced by get_cookies, front to back", from_list and len(finds) == 1 and not rev,
+    loop_ok = None
+    if not finds:
+        # loop form: `for cookie in self.get_cookies() { if cookie.name == name { return Some(cookie) } } None`
+        nx = [(blk, t) for blk, t in g1.calls_to(r"IntoIter<T, A> as std::iter::Iterator>::next$|Iter<'a, T> as std::iter::Iterator>::next$")
+              if desc_contains(describe(prog, g1, t["args"][0]), lambda y: y[0] == "call" and y[1].endswith("Request::get_cookies"))]
+        somes, nones, bad_ret = [], 0, []
+        for i_, blk_ in enumerate(g1.blocks):
+            for s_ in blk_["stmts"]:
+                if "pl" in s_ and s_["pl"]["l"] == 0 and not s_["pl"]["p"]:
+                    rv_ = s_["rv"]
+                    if rv_["k"] == "agg" and rv_.get("variant") == "None":
+                        nones += 1
+                    elif rv_["k"] == "agg" and rv_.get("variant") == "Some":
+                        somes.append((i_, describe(prog, g1, rv_["ops"][0])))
+                    else:
+                        bad_ret.append(i_)
+        loop_ok = len(nx) == 1 and len(somes) >= 1 and not bad_ret and nones >= 1
+        st_ = prog.structs.get("humphrey::http::cookie::Cookie", {}).get("fields", [])
+        ni_ = next((i for i, x in enumerate(st_) if x["name"] == "name"), None)
+        eq_ok = True
+        for i_, elem in somes:
+            is_elem = elem[0] == "field" and elem[2] == 0 and elem[1][0] == "call" and len(elem[1]) > 3 and nx and elem[1][3] == nx[0][0]
+            gs_ = core.guards_dominating(prog, g1, i_)
+            eq = False
+            for s2, lab, gd, info in gs_:
+                if lab == "true" and isinstance(gd, tuple) and gd[0] == "call" and core.re.search(r"PartialEq.*::eq$", gd[1]) and len(gd[2]) == 2:
+                    a_, b__ = gd[2]
+                    for x_, y_ in ((a_, b__), (b__, a_)):
+                        if desc_contains(x_, lambda z: z[0] == "field" and z[2] == ni_ and z[1] == elem) and desc_contains(y_, lambda z: z[0] == "param" and z[2] == "name") \
+                                and not [c for c in desc_calls(x_) + desc_calls(y_) if not core.re.search(r"(::|>::)(deref|as_ref|as_str|borrow|next|into_iter|get_cookies)$", c[1])]:
+                            eq = True
+            loop_ok = loop_ok and is_elem
+            eq_ok = eq_ok and eq
+        chk.ob("R7.cookie_lookup", g1.path, "a cookie matches only if its name == the requested name (whole-string equality)", eq_ok and bool(somes),
+               "the returned cookie is not guarded by cookie.name == name", cfg=cfg)
+    chk.ob("R7.cookie_lookup", g1.path, "get_cookie searches the list produced by get_cookies, front to back", (from_list and len(finds) == 1 and not rev) or (bool(loop_ok) and not rev),
            "get_cookie does not go through get_cookies(): the two can disagree (e.g. a substring search matches `XToken=..` for `Token`)", cfg=cfg)
     d0 = describe(prog, g1, 0)
-    chk.ob("R7.cookie_lookup", g1.path, "get_cookie returns what find() returned", d0[0] == "call" and d0[1].endswith("::find"), f"{core.short(str(d0))[:120]}", cfg=cfg)
+    chk.ob("R7.cookie_lookup", g1.path, "get_cookie returns what find() returned", (d0[0] == "call" and d0[1].endswith("::find")) or bool(loop_ok), f"{core.short(str(d0))[:120]}", cfg=cfg)
     st = prog.structs.get("humphrey::http::cookie::Cookie", {}).get("fields", [])
     ni = next((i for i, x in enumerate(st) if x["name"] == "name"), None)
     for blk, t in finds:
